@@ -141,3 +141,76 @@ def kind_hist(cases):
 
 def case_view(c):
     return {k: c[k] for k in ("expr", "loc", "prev", "go", "model", "ref", "match", "class", "fields", "oracle") if k in c}
+
+
+def aux_compare(recs):
+    """Calendar helper / day-target sweeps: implementation (harness) vs extracted model."""
+    n = 0
+    bad = []
+    for r in recs:
+        for t in r["other"]:
+            if t[0] == "D" and len(t) >= 8:
+                n += 1
+                m = r["aux"].get(("D", t[1]))
+                if m is None or m[:3] != t[5:8]:
+                    bad.append({"kind": "calendar", "y": t[2], "m": t[3], "d": t[4],
+                                "go": {"lastDay": t[5], "weekday": t[6], "closestWeekday": t[7]}, "model": m})
+            elif t[0] == "N" and len(t) >= 8:
+                n += 1
+                m = r["aux"].get(("N", t[1]))
+                go_day, go_ok = t[5], t[6]
+                if m is None or m[1] != go_ok or (go_ok == "1" and m[0] != go_day):
+                    bad.append({"kind": "dayN", "expr": t[7], "y": t[2], "m": t[3], "go": {"day": go_day, "ok": go_ok}, "model": m})
+    return n, bad
+
+
+def run_aux(hbin, dbin, mode, ystep):
+    return [_run_shard((hbin, dbin, [mode, "-ystep", str(ystep)]))]
+
+
+def harness_problems(recs):
+    """Hangs, crashes and unexpected errors of the implementation (C06)."""
+    out = []
+    for r in recs:
+        if r["hang"]:
+            out.append({"kind": "hang", "case": r["hang"], "why": ["NextFireTime did not return within 10 s"]})
+        elif r["rc"] != 0:
+            last = r["cases"][-1] if r["cases"] else None
+            out.append({"kind": "crash", "rc": r["rc"], "stderr": r["stderr"][-1500:],
+                        "last_completed_case": case_view(last) if last else None,
+                        "why": ["the harness process died while evaluating NextFireTime (panic / fatal error)"]})
+        for t in r["other"]:
+            if t and t[0] == "U":
+                out.append({"kind": "impure", "detail": t[1:], "why": ["concurrent or repeated calls on one trigger disagreed, or the trigger changed"]})
+        if r.get("driver_rc"):
+            raise RuntimeError("model driver failed: " + r.get("driver_err", ""))
+    return out
+
+
+def distinct_nontrivial(cases):
+    """distinct (fields, location, prev) whose answer is neither expiry nor prev's next second"""
+    s = set()
+    for c in cases:
+        if c["go"].startswith("F"):
+            ns = int(c["go"][1:])
+            if ns // 10**9 != c["prev"] // 10**9 + 1:
+                s.add((c["fields"], c["zone"], c["prev"]))
+    return len(s)
+
+
+def replay_case(ctx, obj, is_bad):
+    """Re-run one recorded (expr, loc, prev) through implementation and model."""
+    import tempfile
+    rp = obj.get("replay") or obj.get("case") or {}
+    hbin, dbin = build_tools()
+    # reuse the harness through a one-off Go program is overkill: regenerate the shard that contained the case
+    print(json.dumps({"replay_of": rp}))
+    # single-case mode: cronh one -expr .. -loc .. -prev ..
+    rec = _run_shard((hbin, dbin, ["one", "-expr", rp.get("expr", ""), "-loc", rp.get("loc", "UTC"), "-prev", str(rp.get("prev", 0))]))
+    bad = [c for c in rec["cases"] if is_bad(c)]
+    for c in rec["cases"]:
+        print(json.dumps(case_view(c)))
+    if bad or rec["hang"] or rec["rc"] != 0:
+        vlib.report_violation(ctx, obj)
+        return 1
+    return 0
